@@ -348,16 +348,17 @@ def group_of(case):
     return case.tag.split("/")[0]
 
 
+P = "Tetl.C10.Props."
 THEOREMS = {
-    "to_chars": ["C10.Props.toChars_eq", "C10.Props.fromInteger_eq"],
-    "to_chars_all": ["C10.Props.toChars_eq", "C10.Props.round_trip"],
-    "from_integer": ["C10.Props.fromInteger_eq"],
-    "to_string": ["C10.Props.toStr_eq"],
-    "from_chars": ["C10.Props.toInteger_eq", "C10.Props.fromChars_eq_partial"],
-    "to_integer": ["C10.Props.toInteger_eq"],
-    "round_trip": ["C10.Props.round_trip"],
-    "cstr": ["C10.Props.toInteger_eq"],
-    "sto": ["C10.Props.toInteger_eq"],
+    "to_chars": [P + "toChars_eq", P + "fromInteger_eq"],
+    "to_chars_all": [P + "toChars_eq", P + "round_trip"],
+    "from_integer": [P + "fromInteger_eq"],
+    "to_string": [P + "toStr_eq"],
+    "from_chars": [P + "toInteger_eq", P + "fromChars_eq_partial", P + "fromChars_range", P + "overflow_exact"],
+    "to_integer": [P + "toInteger_eq", P + "overflow_exact"],
+    "round_trip": [P + "round_trip"],
+    "cstr": [P + "toInteger_eq", P + "strto_eq_partial", P + "ato_eq_partial"],
+    "sto": [P + "toInteger_eq", P + "strto_eq_partial"],
 }
 
 CLAIMED = True
@@ -377,4 +378,7 @@ LEVEL_NOTE = ("Trusted: Lean kernel + propext/Classical.choice/Quot.sound; fidel
               "from_chars returns ptr=first on result_out_of_range (the suite asserts it); strto*/sto*/ato* lack '+', 0x/base 0, "
               "ERANGE saturation, strtoul negation and exceptions. Members listed in coverage.correspondence_only have no "
               "theorem of their own yet.")
-CORRESPONDENCE_ONLY = []
+# every modelled member has a theorem; what is compared but not proved:
+CORRESPONDENCE_ONLY = ["etl::reverse inside from_integer (modelled by its contract, loop not modelled here: C06)",
+                       "sto* on views with an embedded NUL (theorem is about the view as given; the oracle truncates)",
+                       "sto* exceptions / strto* errno (outside the model: recorded findings)"]
